@@ -18,21 +18,33 @@ The selection rule, from the property text and the documentation of the calls:
   is not internal. AddConsumeTopics / AddConsumePartitions / RemoveConsumePartitions are documented no-ops.
   PurgeTopicsFromConsuming(t): the topic is unselected until the next metadata refresh; if it still exists then it is
   legitimately re-discovered (documented on PurgeTopicsFromClient: "at most only temporarily remove"), if it was deleted
-  it is gone for good (topics are never re-created in the scenarios). -/
+  that INCARNATION of the topic is gone for good.
+
+Topic incarnations: a topic that is deleted and created again under the same name is a NEW topic (new topic ID, new log
+from offset 0, possibly another partition count): `created t g n …` with `g` = 0 for the first incarnation and the
+previous one + 1 for a re-creation (refused while the previous incarnation is alive). Acknowledged and returned records
+carry the incarnation they were produced to (the harness knows it from when it produced the record; record keys are
+unique, so a returned record is attributed to its incarnation unambiguously). Selection is by NAME (named mode) or by
+the name's pattern verdicts (regex mode), so the new incarnation of a selected topic is selected like the old one;
+* eventual coverage is owed for the CURRENT incarnation of a topic that is alive at the quiescent end (records of a
+  deleted incarnation may or may not have been returned before the deletion: nothing is required of them),
+* once the client returned a record of incarnation `g` of a topic, nothing of an older incarnation of that topic may be
+  returned (`C39.record-of-deleted-incarnation-returned`); records of a deleted incarnation that the client had buffered
+  may still come out before that. -/
 namespace Model.Select
 
 inductive Ev where
   | selTopic (t : Nat)                                         -- St: ConsumeTopics names t (named mode)
   | selPart (t p : Nat)                                        -- Sp: ConsumePartitions names t/p
-  | created (t n : Nat) (internal incl excluded : Bool)     -- Cr
+  | created (t g n : Nat) (internal incl excluded : Bool)   -- Cr: incarnation g of topic t created with n partitions
   | grown (t n : Nat)                                          -- Gr
-  | deleted (t : Nat)                                          -- De
+  | deleted (t : Nat)                                          -- De: the current incarnation of t deleted
   | addTopic (t : Nat)                                         -- At (returned)
   | addPart (t p : Nat)                                        -- Ap
   | removePart (t p : Nat)                                     -- Rp
   | purged (t : Nat)                                           -- Pu
-  | produced (id t p off : Nat)                                -- D
-  | returned (t p off id : Nat)                                -- V
+  | produced (id t g p off : Nat)                              -- D: acknowledged by incarnation g of t
+  | returned (t g p off id : Nat)                              -- V: record id, produced to incarnation g of t
   | refresh                                                    -- M
   | incomplete                                                 -- Dx
   | quiesce                                                    -- Q
@@ -44,6 +56,7 @@ deriving Repr
 
 structure Topic where
   id : Nat
+  gen : Nat                 -- the current (when `alive`) or the last incarnation
   parts : Nat
   internal : Bool
   incl : Bool
@@ -56,11 +69,11 @@ structure St where
   pinned : List (Nat × Nat) := []        -- named mode: pinned partitions
   removed : List (Nat × Nat) := []       -- named mode: partitions removed from a whole topic
   purgedNamed : List Nat := []           -- named mode: topics purged (for the rule names only)
-  topics : List Topic := []              -- every topic ever created
+  topics : List Topic := []              -- every incarnation ever created, the latest first (`topicOf` finds it)
   waiting : List Nat := []               -- regex mode: purged, not yet re-discovered
-  gone : List Nat := []                  -- regex mode: purged for good
-  prod : List (Nat × Nat × Nat × Nat) := []   -- (id, t, p, off)
-  ret : List (Nat × Nat × Nat × Nat) := []    -- (t, p, off, id)
+  gone : List (Nat × Nat) := []          -- regex mode: incarnations (t, g) purged for good
+  prod : List (Nat × Nat × Nat × Nat × Nat) := []   -- (id, t, g, p, off)
+  ret : List (Nat × Nat × Nat × Nat × Nat) := []    -- (t, g, p, off, id)
   incomplete : Bool := false
   quiet : Bool := false
 deriving Repr
@@ -73,9 +86,9 @@ def regexWants (s : St) (t : Nat) : Bool :=
   | some tp => tp.incl && !tp.excluded && !tp.internal
   | none => false
 
-/-- the selection rule -/
-def selected (c : Cfg) (s : St) (t p : Nat) : Bool :=
-  if c.regex then regexWants s t && !s.waiting.contains t && !s.gone.contains t
+/-- the selection rule (for partition `p` of incarnation `g` of topic `t`) -/
+def selected (c : Cfg) (s : St) (t g p : Nat) : Bool :=
+  if c.regex then regexWants s t && !s.waiting.contains t && !s.gone.contains (t, g)
   else (s.whole.contains t && !s.removed.contains (t, p)) || s.pinned.contains (t, p)
 
 /-- every one of the `n ≥ 1` existing partitions of `t` is in `removed` -/
@@ -87,11 +100,26 @@ def aliveParts (s : St) (t : Nat) : Nat :=
   | some tp => if tp.alive then tp.parts else 0
   | none => 0
 
+/-- the latest incarnation of `t` (0 when the name is unknown) -/
+def genOf (s : St) (t : Nat) : Nat :=
+  match topicOf s t with
+  | some tp => tp.gen
+  | none => 0
+
+/-- a record of a newer incarnation of `t` than `g` was returned already -/
+def newerReturned (s : St) (t g : Nat) : Bool := s.ret.any (fun r => r.1 == t && decide (g < r.2.1))
+
+/-- the acknowledged records that are owed at the quiescent end and were not returned: of the current incarnation of an
+alive topic, of an existing partition that is selected -/
+def uncovered (c : Cfg) (s : St) : List (Nat × Nat × Nat × Nat × Nat) :=
+  s.prod.filter (fun d => d.2.2.1 == genOf s d.2.1 && decide (d.2.2.2.1 < aliveParts s d.2.1) && selected c s d.2.1 d.2.2.1 d.2.2.2.1 &&
+        !s.ret.any (fun r => r.2.2.2.2 == d.1 && r.1 == d.2.1 && r.2.1 == d.2.2.1 && r.2.2.1 == d.2.2.2.1))
+
 /-- why a record of an unselected partition is refused -/
-def unselectedRule (c : Cfg) (s : St) (t p : Nat) : String :=
+def unselectedRule (c : Cfg) (s : St) (t g p : Nat) : String :=
   if c.regex then
     if s.waiting.contains t then "C39.record-of-purged-topic-before-rediscovery"
-    else if s.gone.contains t then "C39.record-of-purged-topic-returned"
+    else if s.gone.contains (t, g) then "C39.record-of-purged-topic-returned"
     else match topicOf s t with
       | some tp => if tp.internal then "C39.internal-topic-consumed-by-regex"
                    else if tp.excluded then "C39.excluded-topic-consumed"
@@ -105,28 +133,36 @@ def unselectedRule (c : Cfg) (s : St) (t p : Nat) : String :=
 def check (c : Cfg) (s : St) : Ev → Option String
   | .selTopic _ => if c.regex then some "C39.harness-named-selection-in-regex-mode" else none
   | .selPart _ _ => if c.regex then some "C39.harness-named-selection-in-regex-mode" else none
-  | .created t _ _ _ _ => if (topicOf s t).isSome then some "C39.harness-topic-created-twice" else none
+  | .created t g _ _ _ _ =>
+    (match topicOf s t with
+     | none => if g == 0 then none else some "C39.harness-bad-incarnation"
+     | some tp => if tp.alive then some "C39.harness-topic-created-twice"
+                  else if g == tp.gen + 1 then none else some "C39.harness-bad-incarnation")
   | .grown t _ => if aliveParts s t == 0 then some "C39.harness-grow-of-missing-topic" else none
   | .deleted t => if aliveParts s t == 0 then some "C39.harness-delete-of-missing-topic" else none
   | .addTopic _ => none
   | .addPart _ _ => none
   | .removePart _ _ => none
   | .purged _ => none
-  | .produced id _ _ _ => if s.prod.any (·.1 == id) then some "C39.harness-id-reused" else none
-  | .returned t p _ _ => if selected c s t p then none else some (unselectedRule c s t p)
+  | .produced id _ _ _ _ => if s.prod.any (·.1 == id) then some "C39.harness-id-reused" else none
+  | .returned t g p _ _ =>
+    if !selected c s t g p then some (unselectedRule c s t g p)
+    else if newerReturned s t g then some "C39.record-of-deleted-incarnation-returned"
+    else none
   | .refresh => none
   | .incomplete => none
   | .quiesce =>
     if s.incomplete then none
-    else if s.prod.any (fun d => decide (d.2.2.1 < aliveParts s d.2.1) && selected c s d.2.1 d.2.2.1 &&
-        !s.ret.any (fun r => r.2.2.2 == d.1 && r.1 == d.2.1 && r.2.1 == d.2.2.1)) then
-      some "C39.selected-partition-not-consumed"
-    else none
+    else match uncovered c s with
+      | [] => none
+      | us => if us.any (fun d => decide (0 < d.2.2.1)) then some "C39.recreated-topic-never-consumed"
+              else some "C39.selected-partition-not-consumed"
 
 def apply (c : Cfg) (s : St) : Ev → St
   | .selTopic t => { s with whole := t :: s.whole }
   | .selPart t p => { s with pinned := (t, p) :: s.pinned }
-  | .created t n i m x => { s with topics := { id := t, parts := n, internal := i, incl := m, excluded := x, alive := true } :: s.topics }
+  | .created t g n i m x =>
+    { s with topics := { id := t, gen := g, parts := n, internal := i, incl := m, excluded := x, alive := true } :: s.topics }   -- `topicOf` finds the latest incarnation first
   | .grown t n => { s with topics := s.topics.map (fun tp => if tp.id == t then { tp with parts := n } else tp) }
   | .deleted t => { s with topics := s.topics.map (fun tp => if tp.id == t then { tp with alive := false } else tp) }
   | .addTopic t =>
@@ -148,13 +184,13 @@ def apply (c : Cfg) (s : St) : Ev → St
     if c.regex then
       (match topicOf s t with
        | none => s                                            -- nothing known under that name: nothing to purge
-       | some tp => if tp.alive then { s with waiting := t :: s.waiting } else { s with gone := t :: s.gone })
+       | some tp => if tp.alive then { s with waiting := t :: s.waiting } else { s with gone := (t, tp.gen) :: s.gone })
     else { s with whole := s.whole.filter (· != t), pinned := s.pinned.filter (·.1 != t),
                   removed := s.removed.filter (·.1 != t), purgedNamed := t :: s.purgedNamed }
-  | .produced id t p off => { s with prod := s.prod ++ [(id, t, p, off)] }
-  | .returned t p off id => { s with ret := s.ret ++ [(t, p, off, id)] }
+  | .produced id t g p off => { s with prod := s.prod ++ [(id, t, g, p, off)] }
+  | .returned t g p off id => { s with ret := s.ret ++ [(t, g, p, off, id)] }
   | .refresh =>
-    { s with waiting := [], gone := (s.waiting.filter (fun t => aliveParts s t == 0)) ++ s.gone }
+    { s with waiting := [], gone := ((s.waiting.filter (fun t => aliveParts s t == 0)).map (fun t => (t, genOf s t))) ++ s.gone }
   | .incomplete => { s with incomplete := true }
   | .quiesce => { s with quiet := true }
 
